@@ -61,9 +61,17 @@ impl AdvNet {
                 let t = rng.random_range(cfg.inject_from_us..cfg.inject_to_us);
                 let len = [21usize, 40, 53, 100, 1200][rng.random_range(0..5)] + rng.random_range(0..9);
                 let mut p: Vec<u8> = (0..len).map(|_| rng.random()).collect();
-                match rng.random_range(0..4) {
-                    0 => p[0] = 0x40 | (p[0] & 0x3f),        // short header form (also what a stateless reset looks like)
-                    1 => { p[0] = 0xc0 | (p[0] & 0x3f); p[1..5].copy_from_slice(&[0, 0, 0, 1]); } // long header, QUIC v1
+                match rng.random_range(0..7) {
+                    0 | 1 => p[0] = 0x40 | (p[0] & 0x3f),    // short header form (also what a stateless reset looks like)
+                    2 => { p[0] = 0xc0 | (p[0] & 0x3f); p[1..5].copy_from_slice(&[0, 0, 0, 1]); } // long header, QUIC v1
+                    3 | 4 => {
+                        // Initial-looking packet of an unknown version, padded to 1200+ or deliberately short
+                        let l = if rng.random_bool(0.6) { 1200 + rng.random_range(0..100usize) } else { 1100 + rng.random_range(0..99usize) };
+                        p.resize(l, 0x55);
+                        p[0] = 0xc3; p[1..5].copy_from_slice(&[0x1a, 0x2a, 0x3a, 0x4a]);
+                        p[5] = 8; p[14] = 8;                 // dcid / scid lengths
+                    }
+                    5 => { p.resize(40.max(p.len()), 0); p[0] = 0x80 | (p[0] & 0x7f); p[1..5].copy_from_slice(&[0, 0, 0, 0]); p[5] = 8; p[14] = 8; } // Version Negotiation
                     _ => {}
                 }
                 inj.push((t, k % 2 == 0, p));
